@@ -3,6 +3,27 @@ LEAN_TARGETS = ["QmcProps.C04", "drv_c04"]
 BINS = ["c04"]
 
 THEOREMS = [
+    "exit_equal_normalisers",
+    "exit_local_balance",
+    "exit_pick_interval",
+    "exit_pick_total",
+    "chosen_exit_positive",
+    "exit_draw_nonneg",
+    "exit_total_pos",
+    "start_state_independent",
+    "start_draw_map",
+    "start_uniform",
+    "loop_empty",
+    "loopUpdate_pres_partial",
+    "vertex_visit",
+    "reach_flags",
+    "cluster_gate",
+    "offset_bookkeeping",
+    "offset_variants",
+    "energy_offset",
+    "timestep_order",
+    "timestep_invariant",
+    "free_refresh_spec",
 ]
 
 RULE = ("generic samplers over four interaction families (two-site exchange-type rings/chains, Ising-symmetric diagonal + "
